@@ -16,6 +16,7 @@ from .common import fixture_facts, get_facts
 L_GETTERS = ["tz::timezone::Transition::unix_leap_time", "tz::timezone::LeapSecond::unix_leap_time"]
 U_GETTERS = ["tz::datetime::DateTime::unix_time"]
 K_GETTER = "tz::timezone::LeapSecond::correction"
+O_GETTER = "tz::timezone::LocalTimeType::ut_offset"
 U_PARAMS = {
     "tz::timezone::TimeZoneRef::<'_>::find_local_time_type": {1: "U"},
     "tz::timezone::TimeZone::find_local_time_type": {1: "U"},
@@ -56,6 +57,9 @@ def tz_seeds(f, run, cfg):
     corr = E.getter_field(f, K_GETTER)
     if corr is None:
         missing.append(K_GETTER)
+    off = E.getter_field(f, O_GETTER)
+    if off is None:
+        missing.append(O_GETTER)
     names = {i["name"] for i in f.instances}
     # TimeZone (owned) exists only with alloc
     for p in U_PARAMS:
@@ -65,7 +69,7 @@ def tz_seeds(f, run, cfg):
         run.obligation(False)
         run.finding("ANCHOR-MISSING", "%s|%s" % (cfg, ",".join(sorted(missing))), "public getters / entry points used as scale seeds not found or not plain field reads: %s" % sorted(missing))
         return None
-    return E.Seeds(fs, U_PARAMS, corr, K_GETTER)
+    return E.Seeds(fs, U_PARAMS, corr, K_GETTER, off, O_GETTER)
 
 
 def report(run, cfg, A, rule="SCALE"):
@@ -77,7 +81,7 @@ def report(run, cfg, A, rule="SCALE"):
             if "[" in w:
                 where = w.split("[", 1)[1].split("]", 1)[0]
                 break
-        run.finding(rule, key, "a value on the UTC scale (%s) and a value on the leap-count scale (%s) meet without a conversion in %s: %s" % (x["u_seed"], x["l_seed"], x["group"], chain), where, detail=x)
+        run.finding(rule, key, "values on two different time scales (%s | %s) meet without a conversion in %s: %s" % (x["u_seed"], x["l_seed"], x["group"], chain), where, detail=x)
 
 
 def check(run, tier):
